@@ -68,6 +68,11 @@ CHECKS['C10'] = dict(engine='CH', category='model_checking', design='4/C10',
    text='For every family member x spelling x catalog form: each data table is fetched from exactly the integration its first name part resolves to case-insensitively, the query sent there carries no integration qualifier and no table of another integration, no model is sent to an integration, every model reference becomes an apply-predictor step in its own project with the version suffix kept, and the plan equals (case-insensitively) the plan for the canonical lower-case spelling and the canonical catalog form.',
    note='Trusted: CrossHair path bookkeeping, expected-routing table per skeleton in harness/c0910lib.py. Spellings: all 2^3 case variants of int1/int2 and the first letter of mindsdb/proj.')
 
+CHECKS['C14'] = dict(engine='CH', category='model_checking', design='4/C14',
+   technique='CrossHair (z3) path-splitting over a symbolic WHERE formula (10 shapes x 8 atom kinds in 3 slots), ON/USING presence and join order; leaves run the real parser+planner; independent syntactic oracle',
+   text='For every table-model join of the family: exactly one apply-predictor step whose input is the fetched table; the model arguments are exactly the top-level `model.col = const` conjuncts of WHERE, which are not sent to the integration and are neutralised in the outer query, while non-top-level model conditions keep filtering; no table column becomes a model argument; every filter in the table fetch is a top-level conjunct on that table; USING options reach the model with lower-cased keys; ON equalities between model and table columns become the column mapping for both join orders.',
+   note='Trusted: CrossHair path bookkeeping; oracle in harness/c14lib.py written from the property text. One table x one model; deeper formulas and more tables are outside this check (C09/C10 cover their structure).')
+
 NA_PENDING = {}
 
 
